@@ -436,5 +436,16 @@ def reportSectionsGen (failed : Bool) (secs : List Sec) : Option (List Sec) :=
   | [ok, fail] => if (if failed then fail else ok) == "task.report_sections" then some secs else none
   | _ => none
 
+/-- the constructor `pytask_execute_task_protocol` uses for a task that ended the given way -/
+def protocolCtor (branch : String) : Option String := (protocolReports.find? (fun e => e.1 == branch)).map (fun e => e.2)
+
+/-- The sections of the report of a task that ended by `branch` ("else" = returned, "Exception,SystemExit", "KeyboardInterrupt"):
+the protocol builds the report through `from_task` / `from_task_and_exception`, which hand over `task.report_sections`. -/
+def reportSectionsFor (branch : String) (secs : List Sec) : Option (List Sec) :=
+  match protocolCtor branch with
+  | some "from_task" => reportSectionsGen false secs
+  | some "from_task_and_exception" => reportSectionsGen true secs
+  | _ => none
+
 end Gen
 end Pytask.Capture
